@@ -80,7 +80,7 @@ PROPS = {
     },
     "C01": {
         "level": "proof",
-        "units": ["nameparse", "labeliter", "sections"],
+        "units": ["nameparse", "labeliter", "sections", "optiter"],
         "kani": [
             {"group": "g0", "name": "c01_header_getters_total", "kind": "complete", "tier": "quick",
              "what": "Message::from_slice + every Header/HeaderCounts/HeaderSection getter on every 12-octet header: no panic, "
@@ -103,14 +103,21 @@ PROPS = {
                        "RecordSection::{new, next, skip_next, next_section}, ParsedRecord::{new, parse, skip}, RecordHeader::{new, rdlen, "
                        "parse_ref, parse_rdlen}, Section::{first, count, next_section}: the parser never moves backwards or out of the "
                        "message, a record's RDATA window lies inside the message, each iterator yields at most `count` items and "
-                       "nothing after its first error (fuse), and the skip loops terminate. Kani covers the unsafe header casts.",
-        "not_covered": "RecordIter/AnyRecordIter and into_record (typed RDATA parsers for all types), OPT, MessageIter, "
+                       "nothing after its first error (fuse), and the skip loops terminate. Unit `optiter` (base/opt/mod.rs): "
+                       "Opt::check_slice accepts exactly the well-framed option sequences of at most 65535 octets; "
+                       "OptIter::{new, next_step, next}: total for every option type, a step consumes exactly one whole option "
+                       "(header plus announced length, which must fit), the iterator terminates, stays on option boundaries of "
+                       "checked data and is exhausted for good after its first error. Kani covers the unsafe header casts.",
+        "not_covered": "RecordIter/AnyRecordIter and into_record (typed RDATA parsers for all types), the individual OPT option "
+                       "parsers (parse_option of each option type is a trait contract here), OptRecord/OptHeader accessors, MessageIter, "
                        "Message::canonical_name/is_answer (CBMC does not terminate on them: not under contract), dig-style and "
                        "zone-style Display (core::fmt), ParsedName::split_first (Octets::range), 'traversed twice yields the same "
                        "result' (follows from purity over an immutable slice; not stated as an obligation).",
         "assumptions": [
             "AsRefOctets models the bound AsRef<[u8]>: an octets value has one fixed content returned by every as_ref() call",
             "error values are modelled by reduced enums (ParseError, FormError, ParsedDnameError); `?` conversions are opaque",
+            "octseq Parser::parse_u16_be (from_be_bytes: no Verus specification): Ok iff two octets remain, value is the big-endian pair, position +2",
+            "ParseOptData::parse_option (every option type): only moves its own sub-parser forward",
         ],
     },
     "C03": {
